@@ -387,9 +387,10 @@ func (c *Ctx) encodersWriteEveryByte() {
 				continue
 			}
 		}
+		// the destination: the first []byte parameter (a helper may take source bytes behind it)
 		var dst ssa.Value
 		for _, p := range fn.Params {
-			if sl, ok := p.Type().Underlying().(*types.Slice); ok {
+			if sl, ok := p.Type().Underlying().(*types.Slice); ok && dst == nil {
 				if bt, ok := sl.Elem().Underlying().(*types.Basic); ok && bt.Kind() == types.Byte {
 					dst = p
 				}
@@ -445,6 +446,16 @@ func (c *Ctx) encodersWriteEveryByte() {
 								// count, not a constant, is what advances the cursor then
 								if callee := cc.StaticCallee(); callee != nil && callee.Pkg == sp {
 									note(x.Low, call.Block())
+								}
+							}
+							// element stores through the window itself (`body := dst[c:c+2]; body[0] = ..`)
+							for _, ref := range *x.Referrers() {
+								if ia, ok := ref.(*ssa.IndexAddr); ok && ia.X == ssa.Value(x) && ia.Referrers() != nil {
+									for _, r2 := range *ia.Referrers() {
+										if st, ok := r2.(*ssa.Store); ok && st.Addr == ssa.Value(ia) {
+											note(x.Low, st.Block())
+										}
+									}
 								}
 							}
 						}
